@@ -1,9 +1,34 @@
-HOOK_COMMITS = []
+HOOK_COMMITS = ["77606a3"]
 NOT_APPLICABLE = {}
+PBT = "property-based testing (proptest, seeded, shrinking)"
 CLAIMS = {
+    "C03": {
+        "engine": "vqshim C03",
+        "technique": PBT + ": schedule-owning stateful PBT -- the queue sources compiled against shim containers/atomics, thread interleaving is part of the generated case; plus exhaustive schedule enumeration of tiny programs",
+        "text": "Generated 2..3-thread programs with a generated schedule run on the real queue code over shims; oracle = conservation (each item at most once, drain returns exactly the outstanding set) and reported shared length == content. Tiny programs are enumerated over every schedule. Absence of violations is shown only for the explored schedules at shim-step granularity.",
+        "note": "Trusted base: crossbeam-deque Injector, st3 ring and SkipMap are linearizable with their documented semantics (shim conformance is tested each run); sequentially consistent interleavings only; build fails (exit 2) if the import rewrite pattern drifts.",
+    },
+    "C04": {
+        "engine": "vqshim C04",
+        "technique": PBT + ": stateful histories and owned schedules over shim containers with a deterministic per-call step bound",
+        "text": "Every public queue call of every generated history (single-threaded over 2..4 local queues, and 2..3-thread schedules) must return within 16*(ring capacities + live items + 8) shim operations; a spin shows up as an exact, shrinkable history without any clock.",
+        "note": "Same trusted base as C03. Submission through the runtime (CoroutinePool::submit_task) is covered by the runtime engines once built; this check decides the queue layer.",
+    },
+    "C05": {
+        "engine": "vcore C05",
+        "technique": PBT + ": model-based histories on the real crate (exact location model in the no-migration regime; validity predicates for overflow/steal scenarios; pool- and scheduler-level start order)",
+        "text": "Single-threaded generated histories over all of i64 (extremes, ties, 32-bit-colliding values): strict (priority, push-seq) minimum oracle where the model knows every item's queue; key preservation across overflow and steal; observed task/coroutine start order in a one-worker pool / scheduler.",
+        "note": "FIFO among equals is not asserted across an overflow (documented reordering). Concurrency is out of scope here (C03).",
+    },
+    "C06": {
+        "engine": "vcore C06",
+        "technique": PBT + ": model-based histories on the real crate (61-pop fairness window; exact outstanding-count oracle for idle pops)",
+        "text": "Pop-heavy generated histories keep a local queue non-empty below capacity while the shared queue holds items: never 61 consecutive locally-served pops. Arbitrary histories with overflows and steals: a pop returns Some whenever any pushed item is still outstanding. Both queue types.",
+        "note": "Single-threaded, so emptiness is exact; containers trusted.",
+    },
     "C28": {
         "engine": "vcore C28",
-        "technique": "property-based testing (proptest): algebraic laws over boundary-biased generated Durations/timevals",
+        "technique": PBT + ": algebraic laws over boundary-biased generated Durations/timevals",
         "text": "Generated-input search: every generated Duration / (total,slice) / timeval is checked against an exact arithmetic oracle (saturating sum between two clock reads, partition law, zero-means-unlimited); a hang guard turns non-termination into a reported case. Shows absence of violations only on the generated inputs.",
         "note": "Inputs sampled, not exhausted; timeval fields non-negative; <=100000 pieces per split; clock monotone across one call.",
     },
